@@ -4,7 +4,9 @@ from vmon.refsem import INDEX_SYMBOLS
 SELFIES_CHARS = list("[]..CNOSPFIBHclr=#/\\@+-0123456789%:()") + [
     "Ring", "Branch", "expl", "eps", "nop", "[nop]", "[epsilon]", "[C]", "[=C]", "[Ring1]", "[Branch1]",
     "_1", "Expl", "٣", "²", "é", "​", "\x00", "\n", " ", "\t", "[", "]", "[[", "]]", "][", "ß", "Ⅷ", "\ud800",
-    "Cl", "Br", "Fe", "Xx", "H1", "+1", "-1", "@@", "13"]
+    "Cl", "Br", "Fe", "Xx", "H1", "+1", "-1", "@@", "13",
+    "{", "}", "{}", "{0}", "{x}", "{!r}", "{0:d}", "%s", "%d", "%(x)s", "%%", "\\1", "\\d", "(?", "(?P<a>", "*", "+", "?", "^", "$", "|", "~",
+    "'", '"', "`", ";", ",", "<", ">", "&", "\r", "\x7f", "\u200d", "\U0001F600"]
 MODERN = ['[C]', '[=C]', '[#C]', '[N]', '[=N]', '[O]', '[=O]', '[F]', '[S]', '[P]', '[Cl]', '[Branch1]', '[=Branch1]',
           '[#Branch2]', '[Branch3]', '[Ring1]', '[=Ring1]', '[Ring2]', '[#Ring3]', '[C@@H1]', '[N+1]', '[O-1]',
           '[epsilon]', '[nop]', '[/C]', '[\\C]', '[-/Ring1]', '[//Ring2]', '[Fe+2]', '[13CH3]', '[H]', '.',
@@ -13,7 +15,8 @@ BROKEN = ['[', ']', '[]', '[[C]', '[C]]', 'C', '[C', 'C]', '[Xx]', '[CH9]', '[C+
           '[Ring4]', '[Branch0]', '[=Branch]', '[-Ring1]', '[--Ring1]', '[C@@@]', '[CH]', '[C+]', '[1]', '[+1]',
           '[epsilon', 'epsilon]', '[eps]', '[xepsx]', '[epsBranch1]', '[nop', '[Nop]', '[ C ]', '[C ]', '..', '.',
           '[٣C]', '[C+٣]', '[CH²]', '[CH٣]', '[C\x00]', '[\n]', '[C.C]', '[Branchch1]', '[ngng]', '[chch]',
-          '[Ringng]', '[ng1]', '[ch1]', '[' + 'C' * 50 + ']', '[999999999999999999999C]', '[C-999999999999999999]']
+          '[Ringng]', '[ng1]', '[ch1]', '[{}]', '[{0}]', '[{1}]', '[C{x}]', '[{]', '[}]', '[{!}]', '[=C{0:d}expl]', '[%s]', '[%d]',
+          '[C%s]', '[%(a)s]', '[\\1]', '[C\\]', '[(?P<x>C)]', '[C*]', '[C+]', '[.]', '[C$]', '[^C]', '[C|N]', "[C']", '[C"]', '[' + 'C' * 50 + ']', '[999999999999999999999C]', '[C-999999999999999999]']
 LEGACY = ['[Branch1_1]', '[Branch1_2]', '[Branch1_3]', '[Branch2_1]', '[Branch2_2]', '[Branch2_3]', '[Branch3_1]',
           '[Branch3_2]', '[Branch3_3]', '[Expl=Ring1]', '[Expl=Ring2]', '[Expl=Ring3]', '[Expl#Ring1]', '[Expl#Ring2]',
           '[Expl#Ring3]', '[Expl/Ring1]', '[Expl/Ring2]', '[Expl\\Ring1]', '[Expl\\Ring3]', '[C@@Hexpl]', '[N+expl]',
@@ -22,7 +25,8 @@ LEGACY = ['[Branch1_1]', '[Branch1_2]', '[Branch1_3]', '[Branch2_1]', '[Branch2_
           '[\\O-expl]', '[nHexpl]', '[C@@expl]', '[CH1expl]', '[Fe+3expl]', '[Cu+2expl]', '[expl]', '[=expl]',
           '[C:1expl]', '[12CH3-expl]', '[Branch1_4]', '[Branch4_1]', '[Expl-Ring1]', '[Expl=Ring4]', '[ExplRing1]']
 
-SMILES_CHARS = list("CNOSPFIBcnosp[]()=#:/\\.-+@H123456789%0$*~") + [
+SMILES_CHARS = list("CNOSPFIBcnosp[]()=#:/\\.-+@H123456789%0$*~{}'\"`;,<>&^|?!") + [
+    "{}", "{0}", "%s", "%d", "%(x)s", "[{}]", "[C{0}]", "[%s]", "\\1", "\r", "\x7f", "\u200d",
     "Cl", "Br", "[nH]", "[C@@H]", "[O-]", "[N+]", "%10", "%01", "c1", "C1", "(", ")", "[", "]", "Si", "se", "[se]",
     "[Fe+2]", "[13C]", "[CH3:1]", "٣", "²", "é", "\x00", " ", "\n", "@@", "@TH1", "->", "<-", "&", "!", "[*]", "%(100)",
     "\ud800", "%٣٣", "H٣"]
@@ -78,7 +82,11 @@ def hostile_selfies(rng, seeds=()):
         n = rng.choice([200, 500, 500, 2000, 6000 if rng.random() < 0.2 else 1000])
         unit = rng.choice(["[C]", "[C][Branch1][C][F]", "[C][C][C][Ring1][Ring1]", "[C].", "[nop]", "[epsilon]", "[C][=C][Ring1][C]", "[Ring1]", "[Branch1]"])
         reps = max(1, n // max(1, unit.count("[") + unit.count(".")))
-        return "long", unit * reps
+        body = unit * reps
+        if rng.random() < 0.5:
+            head = "".join(rng.choice(MODERN + LEGACY) for _ in range(rng.randint(1, 8)))
+            body = rng.choice([head + body, body + head, head + body + head])
+        return "long", body
     return "edge", rng.choice(["", ".", "..", "[", "]", "[]", "[nop]", "[nop].[nop]", ".[C]", "[C].", "[epsilon]",
                                "[Ring1]", "[Branch1]", "[Branch3]", "[Ring3][C]", "[C][Ring3]", "[C][Branch3][C]",
                                "\x00", "[C]\n", " [C]", "[C] [C]", "C", "[C]C[C]", "[C][", "][", "[C]]", "[[C]"])
@@ -107,7 +115,14 @@ def hostile_smiles(rng, seeds=()):
     if x < 0.84:
         n = rng.choice([200, 500, 500, 2000, 6000 if rng.random() < 0.2 else 1000])
         unit = rng.choice(["C", "C(F)", "C1CC1", "c1ccccc1", "C.", "C=", "[C@@H](F)", "C%10CC%10", "c1ccccc1.", "N(C)", "C#"])
-        return "long", (unit * max(1, n // len(unit))).rstrip("=#.") or "C"
+        body = (unit * max(1, n // len(unit))).rstrip("=#.") or "C"
+        if rng.random() < 0.5:
+            # a feature-rich head (chiral ring atoms, stereo bonds, aromatic rings, charges) in front of / behind the long part
+            pool = list(seeds[:50]) + SMILES_SEEDS + ["C[C@H]1CCCC1", "C[C@@]12CCCC1CCO2", "F/C=C/1CCCC/1", "[C@H](F)(Cl)1CCCC1", "c1cc[nH]c1", "C[N+](C)(C)C"]
+            head = rng.choice(pool)
+            body = rng.choice([head + body, body + head if not body.endswith(".") else body + "." + head,
+                               head + "." + body, head + "(" + body + ")C"])
+        return "long", body
     if x < 0.94:
         # ring-closure trouble: self closures, mismatched bonds, reuse, aromatic bond symbols anywhere
         return "rings", rng.choice(["C11", "C1C1", "C12C12", "C=1CC-1", "C/1CC\\1", "C1CC=1", "C%11%11", "C1CC2", "C1(C1)", "C1.C1",
